@@ -130,6 +130,19 @@ def rule_axis(rep, fb, methods=AXIS_METHODS, floor=40, name="AXIS.depth"):
     return r.done()
 
 
+def _var_is_self(recv, stmts):
+    """receiver is a local variable initialised (in this block) from a re-encoding of this"""
+    e = recv
+    while e and e[0] == "deref":
+        e = e[1]
+    if not e or e[0] != "var":
+        return False
+    for st in stmts:
+        if st[0] == "decl" and st[1] == e[1] and st[3] is not None and find_all((st[3],), lambda n: n[0] == "mcall" and n[1] in SELF_REENCODE and n[3] == ("this",)):
+            return True
+    return False
+
+
 def rule_negaxis(rep, fb, floor=40):
     r = rep.rule("AXIS.negaxis", "reduce_next/sort_next/argsort_next pass negaxis on unchanged, except the non-local branch of the list-offset node "
                  "(guarded by negaxis == branchdepth.second) which passes negaxis - 1 to its content", floor=floor)
@@ -144,6 +157,7 @@ def rule_negaxis(rep, fb, floor=40):
 
         def visit(stmts, under_nonlocal, f=f):
             from .callsites import head_exprs, sub_blocks
+            stmts_ctx = stmts
             for st in stmts:
                 for e in head_exprs(st):
                     for m in find_all((e,), lambda n: n[0] == "mcall" and n[1] == f["name"]):
@@ -152,7 +166,9 @@ def rule_negaxis(rep, fb, floor=40):
                             continue
                         a = cexpr(args[ni])
                         form = "negaxis" if a == ("var", "negaxis") else ("negaxis-1" if a == ("bin", "-", ("var", "negaxis"), ("const", 1)) else unparse(a))
-                        want = "negaxis-1" if (under_nonlocal and cls == "ListOffsetArrayOf") else "negaxis"
+                        # a re-dispatch on the same node re-encoded (toListOffsetArray64(true) ...) keeps negaxis on every branch
+                        selfcall = bool(find_all((m[3],), lambda n: n[0] == "mcall" and n[1] in SELF_REENCODE)) or _var_is_self(m[3], stmts_ctx)
+                        want = "negaxis-1" if (under_nonlocal and cls == "ListOffsetArrayOf" and not selfcall) else "negaxis"
                         recvtxt = unparse(cexpr(m[3]))[:50]
                         key = "%s::%s->%s[%s]" % (cls, f["name"], recvtxt, "nonlocal" if under_nonlocal else "local")
                         r.check(form == want, key, "%s:%d" % (f["file"], m[-1]), "%s::%s passes '%s' as negaxis on the %s branch (expected %s)" % (cls, f["name"], form, "non-local" if under_nonlocal else "local/forwarding", want),
